@@ -108,6 +108,9 @@ type Interp struct {
 	quotedOf          map[string]Term
 	rtypes            map[string]*Value
 	ordTerms          []Term
+	pureDeclared      map[string]bool
+	bufs              map[*Value]*bufState
+	pendingConc       []Value
 	blobStrs          map[int]Term
 	blobByID          map[int]*Blob
 	hints             []string
@@ -492,8 +495,11 @@ func (in *Interp) callFn(fn *ssa.Function, args []Value, env []Value) Value {
 	}
 	// 3. engine intrinsics
 	if f, ok := intrinsics[name]; ok {
-		in.stubsSeen[name]++
-		return f(in, fn, args)
+		r := f(in, fn, args)
+		if _, fallThrough := r.(useReal); !fallThrough {
+			in.stubsSeen[name]++
+			return r
+		}
 	}
 real:
 	// 4. interpret the body
